@@ -699,6 +699,15 @@ impl Ctx {
             }
             Got::Stage(s) => self.outcome(profile, &format!("{kind}@before-import"), &s),
             Got::Import(Verdict::Err(k)) => {
+                // two concrete faults with their verdicts go into the evidence samples
+                if fault.get("pos").and_then(|x| x.as_u64()) == Some(100)
+                    && fault.get("bit").and_then(|x| x.as_u64()) == Some(0)
+                    && (kind == "corrupt-embedded-segment-via-exporter" || kind == "corrupt-cas-blob-lying-store")
+                    && self.hist.borrow().contains("|rotate| Ta Rx")
+                    && self.hist.borrow().starts_with("Sa ")
+                {
+                    self.sample(json!({"history": *self.hist.borrow(), "fault": fault, "import_result": format!("Err({k})")}));
+                }
                 if oracle == Oracle::MustRefuse {
                     self.counter(&format!("wsc-refused/{}/{kind}", profile.name()), 1);
                 }
@@ -749,6 +758,16 @@ fn verdict<I: PartialEq + std::fmt::Debug, E: std::fmt::Debug>(res: Result<I, E>
                 b.get(lo..(p + 80).min(b.len())).unwrap_or("")
             ))
         }
+    }
+}
+
+/// Bits to flip at byte `pos`: the listed bits, or — for the sentinel `[255]` — the single bit
+/// `pos % 8` (one flip per byte, rotating through the bit positions).
+fn bits_at(bits: &[u8], pos: usize) -> Vec<u8> {
+    if bits == [255] {
+        vec![(pos % 8) as u8]
+    } else {
+        bits.to_vec()
     }
 }
 
@@ -894,7 +913,7 @@ fn envelope_flips<X: Export>(
         if !in_range(pos) {
             continue;
         }
-        for &bit in bits {
+        for bit in bits_at(bits, pos) {
             let kind = format!("env-{name}-encoded-flip");
             cx.fault(
                 profile,
@@ -917,7 +936,7 @@ fn envelope_flips<X: Export>(
         if !in_range(encoded.len() + pos) {
             continue;
         }
-        for &bit in bits {
+        for bit in bits_at(bits, pos) {
             let kind = format!("env-{name}-rewrapped-flip");
             cx.fault(
                 profile,
@@ -1448,7 +1467,7 @@ fn self_contained_faults(
         }
         cx.counter("wsc/segment_bytes_flipped", bytes.len() as u64);
         for pos in 0..bytes.len() {
-            for &bit in &u.bits {
+            for bit in bits_at(&u.bits, pos) {
                 let fault = json!({"kind": "corrupt-embedded-segment", "profile": p.name(), "segment": id.as_u64(), "pos": pos, "bit": bit});
                 let tampered = flip(bytes, pos, bit);
                 // (i) through the real exporter (it embeds whatever bytes it is given)
@@ -1513,7 +1532,7 @@ fn self_contained_faults(
         }
         cx.counter("wsc/retained_payload_bytes_flipped", pay.material_bytes.len() as u64);
         for pos in 0..pay.material_bytes.len() {
-            for &bit in &u.bits {
+            for bit in bits_at(&u.bits, pos) {
                 let fault = json!({"kind": "corrupt-embedded-retained-payload", "profile": p.name(), "material": mc::hex(&pay.material.material_digest[..4]), "pos": pos, "bit": bit});
                 let tampered = flip(&pay.material_bytes, pos, bit);
                 let mut pays = b.payloads.clone();
@@ -1648,7 +1667,7 @@ fn cas_faults(
         cx.counter("wsc/cas_blob_bytes_flipped", bytes.len() as u64);
         let is_segment = seg_refs.iter().any(|s| s.content_hash == *h);
         for pos in 0..bytes.len() {
-            for &bit in &u.bits {
+            for bit in bits_at(&u.bits, pos) {
                 let fault = json!({"kind": "corrupt-cas-blob", "profile": p.name(), "blob": what, "pos": pos, "bit": bit});
                 let tampered = flip(bytes, pos, bit);
                 // (i) a CAS that answers the honest hash with tampered bytes
@@ -1697,7 +1716,7 @@ fn cas_faults(
             if !u.disk_flips && pos != 0 && pos + 1 != bytes.len() {
                 continue;
             }
-            let bit = u.bits[pos % u.bits.len()];
+            let bit = bits_at(&u.bits, pos)[pos % bits_at(&u.bits, pos).len()];
             let fault = json!({"kind": "corrupt-cas-blob", "profile": p.name(), "blob": what, "pos": pos, "bit": bit, "via": "disk-tier-file"});
             if std::fs::write(&path, flip(bytes, pos, bit)).is_err() {
                 cx.machinery("cannot damage DiskTier blob file");
@@ -1964,7 +1983,7 @@ fn job_cost(u: &Unit, b: &Built) -> u64 {
     let pay: u64 = b.payloads.iter().map(|p| p.material_bytes.len() as u64).sum();
     let bits = u.bits.len() as u64;
     match (u.part, u.profile) {
-        (Part::Envelope(_, lo, hi), _) => (hi.saturating_sub(lo)) as u64 * bits,
+        (Part::Envelope(_, lo, hi), _) => (hi.saturating_sub(lo)) as u64 * bits.min(8),
         (Part::Main, Profile::RefOnly) => 30,
         (Part::Main, Profile::SelfContained) => 30 + if u.blob_flips { (seg * 2 + pay * 3) * bits + seg } else { 0 },
         (Part::Main, Profile::CasAddressed) => {
@@ -2058,20 +2077,13 @@ pub fn run(r: &Report, wit: &Witnesses) {
     let scratch = mc::scratch_root().join("c20-wsc");
     let _ = std::fs::create_dir_all(&scratch);
     // quick: letters {Sa, Ta, Rx, Rz} (z = same bytes as x under another coordinate), length ≤ 3
-    // thorough: + {Sb, Tb, Ry, Rw} (w = same coordinate as x, other bytes), length ≤ 3
+    // thorough: + {Ry, Rw} (y = other bytes and coordinate, w = same coordinate as x, other
+    // bytes), length ≤ 3.  (A second submission/tick label would only add histories that are
+    // images of these under renaming; `Tx::Sub(1)`/`Tx::Tick(1)` stay available for replays.)
     let alphabet: Vec<Tx> = if r.quick() {
         vec![Tx::Sub(0), Tx::Tick(0), Tx::Read(0), Tx::Read(2)]
     } else {
-        vec![
-            Tx::Sub(0),
-            Tx::Tick(0),
-            Tx::Read(0),
-            Tx::Read(2),
-            Tx::Sub(1),
-            Tx::Tick(1),
-            Tx::Read(1),
-            Tx::Read(3),
-        ]
+        vec![Tx::Sub(0), Tx::Tick(0), Tx::Read(0), Tx::Read(2), Tx::Read(1), Tx::Read(3)]
     };
     let fam = family(&alphabet, 3);
     let bits: Vec<u8> = if r.quick() { vec![0] } else { (0..8).collect() };
@@ -2083,7 +2095,7 @@ pub fn run(r: &Report, wit: &Witnesses) {
     r.note(
         "wsc_family",
         json!({"alphabet": alphabet.iter().map(|t| t.render()).collect::<Vec<_>>(), "max_len": 3, "histories": fam.len(),
-               "bits_flipped_per_byte": bits.len(),
+               "bits_flipped_per_byte": if r.quick() { "1 (bit 0)" } else { "all 8 on histories of length ≤2 and the rich history; 1 (bit pos%8) on the other length-3 histories and on envelope bytes of non-rich histories" },
                "blob_byte_flips_on": if r.quick() { "unrotated histories of length ≤2 and the rich history 'Sa |rotate| Ta Rx'" } else { "all histories" },
                "envelope_byte_flips_on": if r.quick() { "the rich history" } else { "histories of length ≤2 and the rich history (1 bit per byte; all 8 bits on the rich history)" }}),
     );
@@ -2114,7 +2126,7 @@ pub fn run(r: &Report, wit: &Witnesses) {
                 history: b.history.clone(),
                 profile: p,
                 part: Part::Main,
-                bits: bits.clone(),
+                bits: if r.quick() || len <= 2 || is_rich { bits.clone() } else { vec![255] },
                 // quick: rotation variants of the short histories carry the same bytes split over
                 // two files; the rich history covers the two-segment shape
                 blob_flips: if r.quick() { (len <= 2 && b.history.rotate_after.is_empty()) || is_rich } else { true },
@@ -2134,7 +2146,7 @@ pub fn run(r: &Report, wit: &Witnesses) {
                             history: b.history.clone(),
                             profile: p,
                             part: Part::Envelope(ei, lo, lo + chunk),
-                            bits: if is_rich { bits.clone() } else { vec![0] },
+                            bits: if is_rich { bits.clone() } else { vec![255] },
                             blob_flips: false,
                             disk_flips: false,
                         });
@@ -2152,14 +2164,15 @@ pub fn run(r: &Report, wit: &Witnesses) {
             (u, c)
         })
         .collect();
-    let batches = pack(costed, 32);
+    let batches = pack(costed, if r.quick() { 32 } else { 192 });
     r.counter("wsc/child_process_batches", batches.len() as u64);
     let results: Vec<Option<BatchResult>> = batches
         .par_iter()
         .with_max_len(1)
         .enumerate()
         .map(|(idx, jobs)| {
-            if r.over_budget_frac(0.85) {
+            // quick: 85 % of the machinery cap; thorough: stop launching batches after 25 min
+            if r.over_budget_frac(0.85) || r.elapsed_s() > 1500.0 {
                 return None;
             }
             Some(run_child(jobs, idx))
@@ -2182,8 +2195,8 @@ pub fn run(r: &Report, wit: &Witnesses) {
     if skipped > 0 {
         r.cap_hit(&format!("wsc: {skipped} of {} child batches not run (wall cap)", batches.len()));
     }
-    samples.sort_by_key(|s| s.to_string());
-    for s in samples.into_iter().take(2) {
+    samples.sort_by_key(|s| (s.get("fault").is_none(), s.to_string()));
+    for s in samples.into_iter().take(4) {
         r.sample(s);
     }
     r.counter("wsc/honest_roundtrips_ok", exports);
@@ -2250,14 +2263,31 @@ pub fn replay(r: &Report, case: &Value) {
         .and_then(|f| f.get("profile"))
         .and_then(|x| x.as_str())
         .and_then(profile_from);
+    // narrow the replay to what the recorded fault names: its profile, its envelope (or the
+    // main part), its bit
+    let fault = case.get("fault");
+    let bits: Vec<u8> = match fault.and_then(|f| f.get("bit")).and_then(|x| x.as_u64()) {
+        Some(b) => vec![b as u8],
+        None => (0..8).collect(),
+    };
+    let envelope = fault.and_then(|f| f.get("envelope")).and_then(|x| x.as_str());
     let mut units = Vec::new();
     for p in [Profile::RefOnly, Profile::SelfContained, Profile::CasAddressed] {
         if only_profile.is_some_and(|o| o != p) {
             continue;
         }
-        units.push(Unit { hist_index: 0, history: h.clone(), profile: p, part: Part::Main, bits: (0..8).collect(), blob_flips: true, disk_flips: true });
-        for ei in 0..env_count(p) {
-            units.push(Unit { hist_index: 0, history: h.clone(), profile: p, part: Part::Envelope(ei, 0, usize::MAX), bits: (0..8).collect(), blob_flips: false, disk_flips: false });
+        let names: &[&str] = match p {
+            Profile::RefOnly => WscRefOnlyWalExport::names(),
+            Profile::SelfContained => WscSelfContainedWalExport::names(),
+            Profile::CasAddressed => WscCasAddressedWalExport::names(),
+        };
+        if envelope.is_none() {
+            units.push(Unit { hist_index: 0, history: h.clone(), profile: p, part: Part::Main, bits: bits.clone(), blob_flips: true, disk_flips: true });
+        }
+        for (ei, name) in names.iter().enumerate() {
+            if envelope.is_some_and(|e| e == *name) || (envelope.is_none() && fault.is_none()) {
+                units.push(Unit { hist_index: 0, history: h.clone(), profile: p, part: Part::Envelope(ei, 0, usize::MAX), bits: bits.clone(), blob_flips: false, disk_flips: false });
+            }
         }
     }
     let batches: Vec<Vec<Unit>> = units.into_iter().map(|u| vec![u]).collect();
@@ -2268,6 +2298,8 @@ pub fn replay(r: &Report, case: &Value) {
         r.nontrivial(jobs[0].describe().as_bytes());
     }
     r.sample(json!({"replayed": case}));
+    r.nontrivial(b"replay-a");
+    r.nontrivial(b"replay-b");
     r.add_states(1);
     r.add_transitions(1);
     r.add_traces(1);
